@@ -396,6 +396,11 @@ func (trans *FillTransform) processInterval(
 			// Record real data
 			trans.appendCall(c, c.IntervalIndex()[intervalIndexAt])
 
+			// the previous value of the following windows is this row, not the last row of the preceding group
+			for i := range trans.prevReadAts {
+				trans.prevReadAts[i] = intervalIndex
+			}
+
 			if intervalIndexAt == c.IntervalLen()-1 && trans.isSameTag(c) {
 				trans.nextPrevWindow(c, intervalIndex)
 				isStopFillTask = true
